@@ -22,4 +22,18 @@ PROPS = {
     },
 }
 
+PKG_TB = COMMON_TB + [
+    "independent decoders in the harness (harness/decode.go): own ar / rpm lead+header / cpio-newc / mtree / deb822 readers, stdlib archive/tar + compress/gzip, ulikunitz/xz, klauspost/zstd; SHA-256 of decoded bytes",
+    "modelled, not verified: compressors, the tar/cpio byte encoders of the Go standard library and rpmpack (observed through the decoders), chglog rendering",
+]
+
+PROPS["C01"] = {
+    "level": "proof", "harness": "C01", "driver": "C01",
+    "rule": ("cases = generated configurations (YAML text through the real Parse -> Get -> WithDefaults -> Package pipeline) x 5 formats; contents: 12 entry shapes incl. globs, trees, "
+             "symlinks, ghosts, rpm-only types, per-entry packager tags, 5 file_info shapes incl. setuid/sticky modes and per-entry mtimes, 4 umasks, every compression setting; "
+             "distinct = distinct YAML documents; non-trivial = at least two content entries"),
+    "trusted_base": PKG_TB,
+    "assumptions": ["explicit modes are below 0o10000 (the generator's envelope)", "sources are not modified during a case"],
+}
+
 KF_PREDICATES = {}
